@@ -473,7 +473,14 @@ fn start_server(threads: usize) -> Server {
             }
             if let Ok(s) = TcpStream::connect(("127.0.0.1", port)) {
                 drop(s);
-                return Server { port, shared };
+                // the port was free a moment ago, but another process may have taken it before `run` bound it: then the
+                // connection above reached THAT process and `run` has failed (or is about to) - seen as 32 701 refused
+                // connections (exit 2) when many checks ran at once
+                thread::sleep(Duration::from_millis(30));
+                match rx.try_recv() {
+                    Err(std::sync::mpsc::TryRecvError::Empty) => return Server { port, shared },
+                    _ => break,
+                }
             }
             thread::sleep(Duration::from_millis(5));
         }
